@@ -47,7 +47,11 @@ for variant in ("with", "without"):
     dest, tags, is_test = place(wt)
     tagflag = ("-tags " + ",".join(tags)) if tags else ""
     if is_test:
-        rc, out = sh(f"go test {tagflag} -vet=off -count=1 -timeout 300s ./{dest}/ -run 'Demo|Seed|C[0-9][0-9]' 2>&1 | tail -15", cwd=wt, timeout=900)
+        names = []
+        for f in demos:
+            names += re.findall(r'^func (Test\w+)\(', open(f).read(), re.M)
+        runre = "^(" + "|".join(names) + ")$" if names else "."
+        rc, out = sh(f"go test {tagflag} -vet=off -count=1 -timeout 600s ./{dest}/ -run '{runre}' 2>&1 | tail -15", cwd=wt, timeout=1200)
         ok = ("ok " in out or "ok\t" in out) and "FAIL" not in out
     else:
         rc, out = sh(f"go run {tagflag} ./{dest}/ 2>&1 | tail -15", cwd=wt, timeout=900)
